@@ -3,7 +3,9 @@ package mocrelay_test
 import (
 	"bytes"
 	"context"
+	"encoding/json"
 	"fmt"
+	"io"
 	"runtime"
 	"sync"
 	"sync/atomic"
@@ -119,7 +121,7 @@ func (d *c15Sess) close() { d.s.Stop() }
 
 func TestVerif_C15(t *testing.T) {
 	rep := vk.NewReport(t, "C15", "exploration")
-	rep.Rule = "(a) 2-8 goroutines issue Add/Find/Len on one EventCache (capacity 2-6, 8-24 related events: versions of the same addresses, deletion requests and their targets, duplicates; pairwise distinct created_at so the sequential specification is deterministic); every operation is stamped call/return on one logical clock and the history is checked for linearizability against the retention/query specification with porcupine (timeout => inconclusive); (b) the same through concurrent CacheHandler sessions (EVENT->OK, REQ->events+EOSE); (c) a long stress mix with concurrent listings judged by the store invariants; the race detector watches all of it; verifPoint callbacks inject yields/sleeps between the phases of Add and inside Find; non-trivial = a history with at least one pair of overlapping operations of different clients; distinct = distinct histories (hash of the stamped operation sequence)"
+	rep.Rule = "(a) 2-8 goroutines issue Add/Find/Len on one EventCache (capacity 2-6, 8-24 related events: versions of the same addresses, deletion requests and their targets, duplicates; pairwise distinct created_at so the sequential specification is deterministic); every operation is stamped call/return on one logical clock and the history is checked for linearizability against the retention/query specification with porcupine (timeout => inconclusive); (b) the same through concurrent CacheHandler sessions (EVENT->OK, REQ->events+EOSE); (c) a long stress mix with concurrent listings judged by the store invariants; (f) dumps of a 600-900 event cache through a slow writer while three sessions replace pinned addresses and delete notes: every dump satisfies the invariants and lists each pinned address exactly once; the race detector watches all of it; verifPoint callbacks inject yields/sleeps between the phases of Add and inside Find; non-trivial = a history with at least one pair of overlapping operations of different clients; distinct = distinct histories (hash of the stamped operation sequence)"
 	defer rep.Finish()
 	pc := &pointCtl{sleep: true}
 	mocrelay.SetVerifPoint(pc.fn)
@@ -427,8 +429,111 @@ func TestVerif_C15(t *testing.T) {
 		rd.Wait()
 		rep.Eval(1)
 	}
+	// (f) Dump of a cache with several hundred events while other sessions replace versions of
+	// pinned addresses (never deleted, capacity never reached: every sequential state holds
+	// exactly one version of each) and delete notes with deletion requests that sort last:
+	// every dump must be a state of the store, i.e. satisfy the invariants and list every
+	// pinned address exactly once.
+	for round := 0; round < vk.N(2, 24); round++ {
+		r := vk.RNG("C15/dump", round)
+		const capacity = 6000
+		h := mocrelay.NewCacheHandler(capacity)
+		nPinned, nNotes := 250+r.IntN(100), 350+r.IntN(200)
+		authors := []string{vk.FakePub(1500), vk.FakePub(1501), vk.FakePub(1502)}
+		pinnedAddr := make([]string, nPinned)
+		pinnedAuthor := make([]string, nPinned)
+		notes := make([]*mocrelay.Event, nNotes)
+		fill := vk.StartSession(ctx, h, 4)
+		put := func(s *vk.Session, e *mocrelay.Event) bool {
+			if !s.Put(&mocrelay.ClientEventMsg{Event: e}) {
+				return false
+			}
+			_, ok := s.Get()
+			return ok
+		}
+		okFill := true
+		for i := 0; i < nPinned && okFill; i++ {
+			pinnedAuthor[i] = authors[i%3]
+			d := fmt.Sprintf("pinned-%d", i)
+			pinnedAddr[i] = fmt.Sprintf("30000:%s:%s", pinnedAuthor[i], d)
+			okFill = put(fill, vk.Seal(&mocrelay.Event{Kind: 30000, Pubkey: pinnedAuthor[i], CreatedAt: int64(1000 + i), Tags: []mocrelay.Tag{{"d", d}}, Content: "v0"}))
+		}
+		for j := 0; j < nNotes && okFill; j++ {
+			notes[j] = vk.Seal(&mocrelay.Event{Kind: 1, Pubkey: authors[j%3], CreatedAt: int64(2000 + j), Tags: []mocrelay.Tag{}, Content: fmt.Sprintf("note %d of round %d", j, round)})
+			okFill = put(fill, notes[j])
+		}
+		fill.Stop()
+		if !okFill {
+			rep.Inconclusive("C15: could not fill the cache for the dump scenario")
+			continue
+		}
+		var stop atomic.Bool
+		var version, nextNote atomic.Int64
+		var wr sync.WaitGroup
+		for w := 0; w < 3; w++ {
+			wr.Add(1)
+			go func(w int) {
+				defer wr.Done()
+				rr := vk.RNG("C15/dump/w", round*10+w)
+				s := vk.StartSession(ctx, h, 4)
+				defer s.Stop()
+				for !stop.Load() {
+					if rr.IntN(2) == 0 {
+						i := rr.IntN(nPinned)
+						v := version.Add(1)
+						if !put(s, vk.Seal(&mocrelay.Event{Kind: 30000, Pubkey: pinnedAuthor[i], CreatedAt: 5000 + v, Tags: []mocrelay.Tag{{"d", fmt.Sprintf("pinned-%d", i)}}, Content: fmt.Sprintf("v%d", v)})) {
+							return
+						}
+						rep.Count("dump_scenario_replacements", 1)
+					} else if j := int(nextNote.Add(1)) - 1; j < nNotes {
+						// the request is older than everything else: it is listed last
+						if !put(s, vk.Seal(&mocrelay.Event{Kind: 5, Pubkey: notes[j].Pubkey, CreatedAt: int64(10 + j), Tags: []mocrelay.Tag{{"e", notes[j].ID}}, Content: ""})) {
+							return
+						}
+						rep.Count("dump_scenario_deletions", 1)
+					}
+					time.Sleep(time.Duration(50+rr.IntN(400)) * time.Microsecond)
+				}
+			}(w)
+		}
+		nDumps := vk.N(20, 40)
+		for k := 0; k < nDumps && rep.Violations() < 3; k++ {
+			var buf bytes.Buffer
+			if err := h.Dump(&yieldingWriter{w: &buf}); err != nil {
+				rep.Inconclusive("C15: dump failed: " + err.Error())
+				break
+			}
+			var L []*mocrelay.Event
+			if err := json.Unmarshal(buf.Bytes(), &L); err != nil {
+				rep.Violation("concurrent/dump/not-json", "a dump taken while other sessions were writing is not a JSON list of events: "+err.Error(), map[string]any{"bytes": buf.Len()})
+				break
+			}
+			rep.Count("dumps_during_writes", 1)
+			rep.Count("events_in_dumps_during_writes", int64(len(L)))
+			if sig, why := vk.CheckInvariants(capacity, L); sig != "" {
+				rep.Violation("concurrent/dump/"+sig, "a dump taken while other sessions were writing is not a state of the store: "+why, map[string]any{"listed": len(L), "dump_number": k})
+				break
+			}
+			seen := map[string]int{}
+			for _, e := range L {
+				if e.Kind == 30000 {
+					seen[vk.Address(e)]++
+				}
+			}
+			for i, a := range pinnedAddr {
+				if seen[a] != 1 {
+					rep.Violation("concurrent/dump/pinned-address-listed-"+fmt.Sprint(min(seen[a], 2))+"-times", fmt.Sprintf("address %s always has exactly one stored version (it is only ever replaced, capacity %d is never reached), but a dump taken during the writes lists %d", a, capacity, seen[a]), map[string]any{"listed": len(L), "pinned_index": i, "dump_number": k})
+					break
+				}
+			}
+		}
+		stop.Store(true)
+		wr.Wait()
+		rep.Eval(1)
+	}
 	pc.report(rep)
 	rep.Require(rep.Counter("listings_during_restore") > 10, "listings during restore")
+	rep.Require(rep.Counter("dumps_during_writes") >= 30 && rep.Counter("dump_scenario_deletions") > 100 && rep.Counter("dump_scenario_replacements") > 100, "dumps during writes")
 	rep.Require(rep.Counter("router_sessions") > 500, "router sessions")
 	rep.Require(rep.Counter("porcupine_ok")+rep.Counter("porcupine_illegal") >= int64(nHist*95/100), "more than 5% of the histories were inconclusive")
 	rep.Require(rep.Counter("overlapping_operation_pairs") > int64(nHist), "too little overlap between clients")
@@ -436,3 +541,12 @@ func TestVerif_C15(t *testing.T) {
 	rep.Require(rep.Counter("concurrent_listings") > 1000, "too few concurrent listings")
 }
 
+
+// yieldingWriter hands the processor over on every Write (a dump that goes to a pipe or a file).
+type yieldingWriter struct{ w io.Writer }
+
+func (y *yieldingWriter) Write(p []byte) (int, error) {
+	runtime.Gosched()
+	time.Sleep(20 * time.Microsecond)
+	return y.w.Write(p)
+}
